@@ -449,7 +449,10 @@ SX_TRIG = {
     "substitution": "{{ undefined_var }}\n",
     "footnote": "[^u]: unref\n",
     "deprecated": "plain text, the trigger is `attrs_image` in conf.py\n",
+    "domains": "[](#nolabel4)\n",  # conf.py registers a third-party domain without resolve_any_xref
 }
+LEGACY_DOMAIN_CONF = ("from sphinx.domains import Domain\n\n\nclass LegacyDomain(Domain):\n    name = 'legacy'\n    label = 'Legacy'\n\n\n"
+                      "def setup(app):\n    app.add_domain(LegacyDomain)\n")
 SX_EXPECT = {"xref_missing": "myst.xref_missing", "iref_missing": "myst.iref_missing", "footnote": "ref.footnote"}
 
 
@@ -503,7 +506,7 @@ class SphinxSystem(System):
         (src / "conf.py").write_text(
             "extensions=['myst_parser','sphinx.ext.intersphinx']\n"
             "myst_enable_extensions=['strikethrough','substitution','attrs_inline','html_image','html_admonition','colon_fence'" + (",'attrs_image'" if key == "deprecated" else "") + "]\n"
-            f"suppress_warnings={sup!r}+['image.not_readable']\nmyst_heading_anchors=2\nkeep_warnings=True\n")
+            f"suppress_warnings={sup!r}+['image.not_readable']\nmyst_heading_anchors=2\nkeep_warnings=True\n" + (LEGACY_DOMAIN_CONF if key == "domains" else ""))
         (src / "index.md").write_text(text)
         app = SphinxTestApp(srcdir=src, buildername="html")
         try:
